@@ -11,8 +11,10 @@ structure St where
   wa : TWorld
   ws : TWorld
   wc : TWorld
+  wd : TWorld           -- `D …` = C + the storage APPENDS its extension to the name it is given (proposed repair)
+  dotted : Bool         -- this case uses two explicit names that differ by a dotted tail (`layout dotted`)
 
-def init : St := ⟨.init Cls.graph, .init Cls.graph, .init Cls.graph, .init Cls.graph⟩
+def init : St := ⟨.init Cls.graph, .init Cls.graph, .init Cls.graph, .init Cls.graph, .init Cls.graph, false⟩
 
 def showFile : FileSt → String
   | .absent => "absent" | .empty => "empty" | .torn => "torn"
@@ -121,7 +123,28 @@ def both (s : St) (op : TOp) : St × List String :=
   let (wa, la) := obs "A" ⟨Cfg.unswept, false⟩ s.wa op
   let (ws, ls) := obs "S" TCfg.unclimbed s.ws op
   let (wc, lc) := obs "C" TCfg.current s.wc op
-  (⟨wi, wa, ws, wc⟩, [li, la, ls, lc])
+  let (wd, ld) := obs "D" TCfg.current s.wd op   -- without dotted names the naming makes no difference
+  ({ s with wi := wi, wa := wa, ws := ws, wc := wc, wd := wd }, [li, la, ls, lc, ld])
+
+/-- one op under the primary / the neighbouring name of the dotted layout; physical file keys: `relax.v2.*` are the
+`main` columns, `relax.*` the `rec` columns -/
+def obsN (tag : String) (tc : TCfg) (m : NameMode) (w : TWorld) (name : Name) (op : Op) : TWorld × String :=
+  let (w', r) := nstep tc m w name op
+  let st := resolve m name
+  let pv := w'.tree.view (resolve m .primary)
+  let kids := match name, op with
+    | .primary, .loadForeign c v =>
+      s!" kids={if (compLoad false ⟨⟨c, v⟩, true⟩ (w.tree.view st)).1.attached then 1 else 0}"
+    | _, _ => ""
+  (w', s!"{tag} {showRes r} | {showTree w'.tree} | has={if hasSaved pv then 1 else 0} hasnf={if hasSavedF false pv then 1 else 0} nf={showLoadNF w'.node.cls pv}{kids} | node={w'.node.ver} | steps={",".intercalate (trace1 tc w.tree st w.node.cls op)}")
+
+def bothN (s : St) (name : Name) (op : Op) : St × List String :=
+  let (wi, li) := obsN "I" ⟨Cfg.pinned, false⟩ .replaceTail s.wi name op
+  let (wa, la) := obsN "A" ⟨Cfg.unswept, false⟩ .replaceTail s.wa name op
+  let (ws, ls) := obsN "S" TCfg.unclimbed .replaceTail s.ws name op
+  let (wc, lc) := obsN "C" TCfg.current .replaceTail s.wc name op
+  let (wd, ld) := obsN "D" TCfg.current .append s.wd name op
+  ({ s with wi := wi, wa := wa, ws := ws, wc := wc, wd := wd }, [li, la, ls, lc, ld])
 
 def parseStore : String → Option Store
   | "main" => some .main | "rec" => some .recovery | "a" => some .childA | "b" => some .childB | _ => none
@@ -145,7 +168,23 @@ def parseOp : List String → Option Op
     | _, _ => none
   | _ => none
 
+/-- the dotted layout: plain ops go under the primary name, `at nb …` under the neighbouring one -/
+def stepDotted (s : St) (ws : List String) : St × List String :=
+  match ws with
+  | "at" :: "nb" :: rest =>
+    match parseOp rest with
+    | some .reopen => (s, ["bad-op"])
+    | some (.loadForeign _ _) => (s, ["bad-op"])
+    | some op => bothN s .neighbour op
+    | none => (s, ["bad-op"])
+  | _ =>
+    match parseOp ws with
+    | some op => bothN s .primary op
+    | none => (s, ["bad-op"])
+
 def step (s : St) (ws : List String) : St × List String :=
+  if ws = ["layout", "dotted"] then ({ s with dotted := true }, []) else
+  if s.dotted then stepDotted s ws else
   match ws with
   | "at" :: st :: rest =>
     match parseStore st, parseOp rest with
